@@ -44,7 +44,9 @@ BufferedCmds == {"LOGIN-user", "LOGIN-pass", "CREATE", "LIST-pat", "SEARCH-str",
 \* the octets still on the wire are message data all the same
 StreamCmds   == {"APPEND", "APPEND-fail", "APPEND-panic"}
 FaultyBackend == {"APPEND-fail", "APPEND-panic"}
-SyntaxCmds   == {"NOOP-lit", "XUNK-lit"}       \* literal announced after a syntax error / unknown command
+\* literal announced after a syntax error / unknown command / where the command name should be (`tag {n+}`) /
+\* behind a bare UID (`tag UID {n+}`)
+SyntaxCmds   == {"NOOP-lit", "XUNK-lit", "TAG-lit", "UID-lit"}
 \* no literal; AUTH-CANCEL and IDLE use continuation requests.  AUTH-FINAL: AUTHENTICATE XFINAL <initial response> -
 \* the mechanism accepts and has final data for the client: the server may send them in one more continuation
 \* request (which the client answers with an empty line - that line belongs to the exchange, it is no command) or
@@ -178,7 +180,14 @@ UnknownPreAuth(u) ==
   /\ closed' = TRUE /\ out' = Obs("NOTOK", 0, "none")
   /\ UNCHANGED <<litplus, utf8, sasl, state, stuck>>
 
-Step(u) == \/ Execute(u) \/ ExecAuthFinal(u)
+\* A line without a command name (or with a bare UID) may simply end the connection, in any state and whatever the form
+\* of the literal announced on it.
+NoCommandName(u) ==
+  /\ Alive /\ WellFormedUnit(u) /\ u.cmd \in {"TAG-lit", "UID-lit"}
+  /\ closed' = TRUE /\ \E t \in {"NOTOK", "NONE"} : out' = Obs(t, 0, "none")
+  /\ UNCHANGED <<litplus, utf8, sasl, state, stuck>>
+
+Step(u) == \/ Execute(u) \/ ExecAuthFinal(u) \/ NoCommandName(u)
            \/ (~(u.cmd = "XUNK-lit" /\ state = "notauth") /\ (RefuseSync(u) \/ RefuseNonSyncConsume(u) \/ RefuseNonSyncClose(u)))
            \/ UnknownPreAuth(u)
 
